@@ -88,7 +88,7 @@ fn read_color(slot: &Node) -> Option<String> {
         match child.tag_name().name() {
             "srgbClr" => {
                 if let Some(val) = child.attribute("val") {
-                    return Some(format_hex(val));
+                    return format_hex(val);
                 }
             }
             "sysClr" => {
@@ -96,7 +96,7 @@ fn read_color(slot: &Node) -> Option<String> {
                     .attribute("lastClr")
                     .or_else(|| child.attribute("val"))
                 {
-                    return Some(format_hex(val));
+                    return format_hex(val);
                 }
             }
             _ => {}
@@ -105,14 +105,18 @@ fn read_color(slot: &Node) -> Option<String> {
     None
 }
 
-fn format_hex(raw: &str) -> String {
+/// `RRGGBB` or `AARRGGBB` (optionally with a leading `#`) as `#RRGGBB`; anything else is not a colour.
+fn format_hex(raw: &str) -> Option<String> {
     let trimmed = raw.trim_start_matches('#');
-    let rgb = if trimmed.len() == 8 {
-        &trimmed[2..]
-    } else {
-        trimmed
+    if !trimmed.chars().all(|c| c.is_ascii_hexdigit()) {
+        return None;
+    }
+    let rgb = match trimmed.len() {
+        8 => &trimmed[2..],
+        6 => trimmed,
+        _ => return None,
     };
-    format!("#{}", rgb.to_ascii_uppercase())
+    Some(format!("#{}", rgb.to_ascii_uppercase()))
 }
 
 #[cfg(test)]
